@@ -938,7 +938,7 @@ def run(tier, replay=None):
     if replay:
         print(json.dumps(json.load(open(replay)), indent=1)[:3000])
         return 0
-    proof = common.prove(report, "C09", ["sendqueue", "statemachines", "protoconsts", "rxloop"], extra_targets=["Run/C09Run.vo"])
+    proof = common.prove(report, "C09", ["sendqueue", "statemachines", "protoconsts", "rxloop", "lifecycle"], extra_targets=["Run/C09Run.vo"])
     ok, log = common.coq_make(["Run/C09Run.vo"])
     if not ok:
         report.violation({"kind": "broken-obligation", "obligation": "Run/C09Run.vo does not build", "detail": log[-1500:], "also": proof.get("broken")}, False, tag="modelbuild")
